@@ -351,6 +351,98 @@ def snip_toplevel_misc(rng, u, k, tags):
     return t
 
 
+SV_NAMESPACES = ["sv_ns_a", "sv_ns_b", "sv_ns_c"]
+SV_MEMBERS = ["WIDTH", "DEPTH"]
+
+
+def snip_sv_shared(rng, u, k, tags, pairs=None):
+    """module referring to members of shared `$sv::` namespaces.  The (namespace, member) names come
+    from a small fixed pool, so several files of one project mention the SAME `$sv::ns::member` and
+    same-named members of DIFFERENT namespaces: only the first file registers the symbol, the others'
+    inserts are shadowed (symbol_table sv_shadows) - which file that is depends on the build."""
+    if pairs is None:
+        allp = [(n, m) for n in SV_NAMESPACES for m in SV_MEMBERS]
+        pairs = rng.sample(allp, rng.randint(2, 4))
+        # make sure one member name occurs under two namespaces
+        m = rng.choice(SV_MEMBERS)
+        for n in rng.sample(SV_NAMESPACES, 2):
+            if (n, m) not in pairs:
+                pairs.append((n, m))
+    body = ""
+    for i, (n, m) in enumerate(pairs):
+        body += "    const SV_%d: u32 = $sv::%s::%s;\n" % (i, n, m)
+    body += "    #[allow(unused_variable)]\n    let _sv_sum: logic<32> = %s;\n" % " + ".join("SV_%d" % i for i in range(len(pairs)))
+    if rng.random() < 0.5:
+        body += "    inst u_svm: $sv::%s::SvLeaf;\n" % rng.choice(SV_NAMESPACES) if False else "    inst u_svm: $sv::SvShared%d;\n" % rng.randint(0, 1)
+    tags.update(["sv_shared_member", "sv_reference", "module", "const"])
+    return "module SvUse%s_%d {\n%s}\n" % (u, k, body)
+
+
+def snip_ifdef(rng, u, k, tags):
+    """conditional attributes around parameters, ports, declarations and statements
+    (#[ifdef] / #[ifndef] / #[elsif] / #[else], nested and grouped), defines VH_A / VH_B"""
+    d1, d2 = rng.choice([("VH_A", "VH_B"), ("VH_B", "VH_A")])
+    name = "Ifd%s_%d" % (u, k)
+    t = "module %s #(\n" % name
+    t += "    #[ifdef(%s)]\n    param PA: u32 = 1,\n" % d1
+    t += "    #[ifdef(%s)]\n    {\n        param PB: u32 = 2,\n    },\n" % d2 if rng.random() < 0.5 else ""
+    t += "    param PC: u32 = 3,\n) (\n"
+    t += "    #[ifdef(%s)]\n    port_x: input logic,\n    #[elsif(%s)]\n    port_y: input logic,\n    #[else]\n    port_z: input logic,\n" % (d1, d2)
+    t += "    #[ifndef(%s)]\n    port_p: input logic,\n" % d1 if rng.random() < 0.5 else ""
+    t += "    #[ifdef(%s)]\n    port_a: input logic,\n    #[ifndef(%s)]\n    port_a: input logic<2>,\n" % (d2, d2) if rng.random() < 0.5 else ""
+    t += "    port_d: input logic,\n) {\n"
+    t += "    #[ifdef(%s)]\n    #[ifdef(%s)]\n    let _a: logic<10> = 1;\n" % (d1, d2)
+    t += "    #[ifdef(%s)]\n    {\n        let _b: logic<10> = 1;\n        let _c: logic<10> = PC;\n    }\n" % d1
+    t += "    var _d: logic;\n    always_comb {\n        #[ifdef(%s)]\n        block {\n            _d = 0;\n        }\n    }\n" % d2
+    t += "    #[ifndef(%s)]\n    assign _d = 1;\n" % d2
+    if rng.random() < 0.5:
+        t += "    #[ifdef(%s)]\n    let _v: logic = 0;\n    #[ifndef(%s)]\n    let _v: logic<2> = 1;\n" % (d1, d1)
+    t += "}\n"
+    tags.update(["ifdef", "ifndef", "elsif", "else", "attribute", "module", "parameter", "port"])
+    return t
+
+
+def sv_shared_project(rng, nfiles, prefix="S"):
+    """files that share `$sv::` namespace members (and, half of the time, ordinary generated content)"""
+    files, tags = [], set()
+    avail = {}
+    for i in range(nfiles):
+        u = "%s%d" % (prefix, i)
+        text = ""
+        if rng.random() < 0.4:
+            f = gen_file(rng, u, avail, nitems=2)
+            for kind, exps in f.exports.items():
+                avail.setdefault(kind, []).extend(exps)
+            text = f.text.replace("\r\n", "\n") + "\n"
+            tags |= f.tags
+        for k in range(rng.randint(1, 2)):
+            text += snip_sv_shared(rng, u, 90 + k, tags)
+        if rng.random() < 0.3:
+            text += snip_ifdef(rng, u, 95, tags)
+        files.append(("s%s.veryl" % u, text))
+    p = Project(files, origin="sv-shared")
+    p.tags = tags
+    return p
+
+
+def ifdef_project(rng, nfiles, prefix="I"):
+    files, tags = [], set()
+    avail = {}
+    for i in range(nfiles):
+        u = "%s%d" % (prefix, i)
+        f = gen_file(rng, u, avail, nitems=2)
+        for kind, exps in f.exports.items():
+            avail.setdefault(kind, []).extend(exps)
+        text = f.text.replace("\r\n", "\n") + "\n" + snip_ifdef(rng, u, 95, tags)
+        if rng.random() < 0.5:
+            text += snip_ifdef(rng, u, 96, tags)
+        tags |= f.tags
+        files.append(("i%s.veryl" % u, text))
+    p = Project(files, origin="ifdef")
+    p.tags = tags
+    return p
+
+
 EXPORTERS = [snip_package, snip_package, snip_module, snip_module, snip_interface, snip_proto, snip_generic]
 
 
@@ -376,6 +468,12 @@ def gen_file(rng, uid, avail=None, nitems=None):
     if rng.random() < 0.5:
         k += 1
         users.append(snip_toplevel_misc(rng, uid, k, tags))
+    if rng.random() < 0.3:
+        k += 1
+        users.append(snip_sv_shared(rng, uid, k, tags))
+    if rng.random() < 0.3:
+        k += 1
+        users.append(snip_ifdef(rng, uid, k, tags))
     # inside one file a package / module must be defined before it is referred to
     # (referring_before_definition); across files there is no such rule
     rng.shuffle(parts)
